@@ -71,3 +71,66 @@ def reference_unphased(d, P):
     else:
         r.c101 = r.cm = None
     return r
+
+
+# ---------------------------------------------------------------------------------------------------------------------
+# Large matrices (family "large" of pbmon/props/c09.py): millions of raw calls cannot be walked element by element in
+# Python within the budget.  The same definitions are evaluated with
+#   * per-taxon counts d and per-locus counts c as *int64* numpy reductions of the int8 calls (an int64 accumulator
+#     cannot wrap below 2**63 additions of values <= 6; numpy's integer reductions are part of the trusted base), and
+#     cross-checked through a second route that never adds the calls (number of non-zero calls per chromosome copy for
+#     phased calls; sum_k k * #{i: d[i][j] == k} from a bincount for unphased calls) - a disagreement is a harness fault;
+#   * everything that follows from the counts (frequencies, minor allele frequency, flags, sum_j c(N-c), mean expected
+#     heterozygosity) in exact Python integers / Fractions per locus, exactly as in ``reference_unphased``.
+class LargeRef:
+    """Reference values for one large matrix; per-taxon float tables are built on demand (they are as large as the calls)."""
+
+    def __init__(self, raw, P, phased):
+        import numpy
+        self._np = numpy
+        raw = numpy.asarray(raw)
+        d = raw.sum(0, dtype="int64") if phased else raw.astype("int64")
+        n, m = d.shape
+        N = P * n
+        self.P, self.n, self.m, self.N = P, n, m, N
+        self.d = d
+        c_np = d.sum(0, dtype="int64")
+        gt = numpy.bincount((d + (P + 1) * numpy.arange(m, dtype="int64")).ravel(), minlength=(P + 1) * m)
+        gt = gt.reshape(m, P + 1).T.astype("int64")
+        if phased:
+            c2 = sum(numpy.count_nonzero(raw[k], axis=0).astype("int64") for k in range(P))
+        else:
+            c2 = sum(k * gt[k] for k in range(P + 1))
+        if d.min() < 0 or d.max() > P or not numpy.array_equal(c_np, c2) or gt.sum(0).tolist() != [n] * m:
+            raise AssertionError("harness fault: the two routes to the allele counts of a large matrix disagree")
+        c = [int(v) for v in c_np]
+        self.c, self.c_np, self.gt = c, c_np, gt
+        self.p = numpy.array([cj / N for cj in c], dtype="float64")
+        self.maf = numpy.array([min(cj, N - cj) / N for cj in c], dtype="float64")
+        self.fixed = numpy.array([cj == 0 or cj == N for cj in c], dtype=bool)
+        self.poly = numpy.array([0 < cj < N for cj in c], dtype=bool)
+        self.prod = [cj * (N - cj) for cj in c]           # exact Python integers
+        self.S = sum(self.prod)                           # sum_j c(N-c): p(1-p) summed over loci is S / N**2
+        self.meh = float(Fraction(P * self.S, m * N * N))
+        self.meh_alt = float(Fraction(2 * self.S, m * N * N))
+        self.gtf = gt / n
+
+    def tafreq(self):
+        return self.d / self.P
+
+    def c101(self):
+        return self.d - 1
+
+    def cm(self):
+        numpy = self._np
+        mean = numpy.array([(cj - self.n) / self.n for cj in self.c], dtype="float64")
+        out = (self.d - 1).astype("float64")
+        return numpy.where(self.d == 1, mean[None, :], out)
+
+    def expected(self, name):
+        if name == "tacount":
+            return self.d
+        if name == "tafreq":
+            return self.tafreq()
+        return {"acount": self.c_np, "gtcount": self.gt, "afixed": self.fixed, "apoly": self.poly, "afreq": self.p,
+                "maf": self.maf, "meh": self.meh, "gtfreq": self.gtf}[name]
